@@ -77,7 +77,31 @@ static std::vector<unsigned char> junk(unsigned &seed, size_t n) {
     return v;
 }
 
-static std::string op_hm(const Toks &t) {
+// trailing "AK": the output buffer is the key buffer (out == key, as in a ratchet ck = HMAC(ck, data)); nothing in the
+// headers forbids it and the result must still be HMAC(key, message)
+static std::string op_hm_alias(const Toks &t) {
+    bool a = t[1] == "hmaca";
+    std::vector<unsigned char> kv = unhex(t[2]);
+    Buf w(kv.size() > 32 ? kv.size() : 32);
+    if (kv.size()) memcpy(w.p, kv.data(), kv.size());
+    if (t[0] == "HMO") {
+        Buf m(unhex(t[3]), true);
+        if (a) ascon_hmaca(w.p, w.p, kv.size(), m.p, m.n); else ascon_hmac(w.p, w.p, kv.size(), m.p, m.n);
+    } else {
+        std::vector<std::vector<unsigned char> > cs = chunks_of(t.size() > 3 ? t[3] : "");
+        if (a) { ascon_hmaca_state_t st; ascon_hmaca_init(&st, w.p, kv.size());
+            for (size_t i = 0; i < cs.size(); ++i) { Buf c(cs[i], true); ascon_hmaca_update(&st, c.p, c.n); }
+            ascon_hmaca_finalize(&st, w.p, kv.size(), w.p); ascon_hmaca_free(&st); }
+        else { ascon_hmac_state_t st; ascon_hmac_init(&st, w.p, kv.size());
+            for (size_t i = 0; i < cs.size(); ++i) { Buf c(cs[i], true); ascon_hmac_update(&st, c.p, c.n); }
+            ascon_hmac_finalize(&st, w.p, kv.size(), w.p); ascon_hmac_free(&st); }
+    }
+    return hex(w.p, 32);
+}
+
+static std::string op_hm(const Toks &t0) {
+    Toks t = t0;
+    if (t.size() > 3 && t[t.size() - 1] == "AK") { t.pop_back(); return op_hm_alias(t); }
     bool a = t[1] == "hmaca";
     Buf k(unhex(t[2]), true), out(32);
     if (t[0] == "HMO") {
@@ -230,3 +254,44 @@ static std::string op_pb(const Toks &t) {
     return out.hx();
 }
 static Reg r_pb("PB", op_pb);
+
+// PBT <xof|hmac> <pw> <salt> <count> <n> <ms>: the same call in a child process that is given <ms> milliseconds.
+// "TIMEOUT" when it is still iterating then, "DONE <hex>" when it returned.  Used with iteration counts of 2^32 and more, which
+// no machine completes in that time (>= 2^33 permutation calls): returning early means the count was not honoured.
+#include <unistd.h>
+#include <signal.h>
+#include <poll.h>
+#include <sys/wait.h>
+static std::string op_pbt(const Toks &t) {
+    Buf pw(unhex(t[2]), true), salt(unhex(t[3]), true);
+    unsigned long long c = strtoull(t[4].c_str(), 0, 10);
+    if (c > (unsigned long long)(unsigned long)-1) return "TIMEOUT";       // not representable in the parameter type on this target
+    size_t n = (size_t)atoi(t[5].c_str());
+    int ms = atoi(t[6].c_str());
+    int fd[2];
+    if (pipe(fd) != 0) return "INFRA-pipe";
+    pid_t pid = fork();
+    if (pid < 0) return "INFRA-fork";
+    if (pid == 0) {
+        close(fd[0]);
+        Buf out(n);
+        if (t[1] == "xof") ascon_pbkdf2(out.p, n, pw.p, pw.n, salt.p, salt.n, (unsigned long)c);
+        else ascon_pbkdf2_hmac(out.p, n, pw.p, pw.n, salt.p, salt.n, (unsigned long)c);
+        std::string h = out.hx();
+        ssize_t w = write(fd[1], h.data(), h.size()); (void)w;
+        _exit(0);
+    }
+    close(fd[1]);
+    struct pollfd pf; pf.fd = fd[0]; pf.events = POLLIN; pf.revents = 0;
+    std::string got; bool done = false;
+    if (poll(&pf, 1, ms) > 0) {
+        char buf[4096]; ssize_t r;
+        while ((r = read(fd[0], buf, sizeof(buf))) > 0) got.append(buf, (size_t)r);
+        done = true;
+    }
+    close(fd[0]);
+    kill(pid, SIGKILL);
+    int st; waitpid(pid, &st, 0);
+    return done ? "DONE " + got : "TIMEOUT";
+}
+static Reg r_pbt("PBT", op_pbt);
